@@ -190,3 +190,134 @@ class EmptyStates(Harness):
 
 
 HARNESSES = [TrajectoryRoundTrip(), JointRoundTrip(), EmptyStates()]
+
+# ---- deductive contract: parse_trajectory builds a chain, one component per (action, state) pair of the file ------------------------------
+# Relative to assumed contracts of the component parsers (parse_state / parse_action_call / parse_joint_action; bounded above) and of the
+# reader (C11): `state_src(s)` / `call_src(c)` / `joint_src(l)` name the expression an object was parsed from.  State.copy is the contract
+# proved under C14; its value relation `same_content` is used abstractly here.
+import z3 as _z3
+from pyvc.core import Val as _Val
+from pyvc.sorts import I as _I, SExp as _SExp, SList as _SList
+from contracts.c14 import CONTRACTS as _C14_CONTRACTS, STATE_WF as _STATE_WF, HOOKS_OPAQUE as _C14_OPAQUE
+_state_src = _z3.Function("state_src", _I, _SList)
+_call_src = _z3.Function("call_src", _I, _SList)
+_joint_src = _z3.Function("joint_src", _I, _SList)
+_tok_src = _z3.Function("tokenizer_source", _I, _I)
+_file_sexp = _z3.Function("file_sexp", _I, _SExp)
+_C10_HOOKS = dict(
+    _C14_OPAQUE,
+    state_src=lambda interp, st, a: _Val(_state_src(a[0].t), "slist"),
+    call_src=lambda interp, st, a: _Val(_call_src(a[0].t), "slist"),
+    joint_src=lambda interp, st, a: _Val(_joint_src(a[0].t), "slist"),
+    tokenizer_source=lambda interp, st, a: _Val(_tok_src(a[0].t), ("ref", "Path")),
+    file_sexp=lambda interp, st, a: _Val(_file_sexp(a[0].t), "sexp"),
+    is_list=lambda interp, st, a: _Val(_SExp.is_Lst(a[0].t), "bool"),
+    items=lambda interp, st, a: _Val(_SExp.items(a[0].t), "slist"),
+    head_is=lambda interp, st, a: _Val(_z3.And(_SExp.is_Lst(a[0].t), _z3.Not(_SList.is_Nil(_SExp.items(a[0].t))),
+                                               interp.fn("sfirst")(_SExp.items(a[0].t)) == _SExp.Atom(a[1].t)), "bool"),
+)
+_TP = "lisp_parsers.trajectory_parser:TrajectoryParser."
+_TPR = ("ref", "TrajectoryParser")
+_ANY = {"SyntaxError": "True", "ValueError": "True", "KeyError": "True", "IndexError": "True", "AssertionError": "True", "AttributeError": "True",
+        "TypeError": "True"}
+_E = "items(file_sexp(trajectory_file_path))"
+_NSTEPS = f"(slen({_E}) - 1 + 1) // 2"
+
+
+def _comp_ok_text(joint):
+    act = "c.grounded_joint_action.actions" if joint else "c.grounded_action_call"
+    return [
+        "fresh(c) and fresh(c.previous_state) and fresh(c.next_state) and c.previous_state != c.next_state"
+        + (" and fresh(c.grounded_joint_action)" if joint else ""),
+        # the k-th component holds the state parsed from item 2k+2 and the action parsed from item 2k+1
+        f"state_src(c.next_state) == srest(items(snth({_E}, 2 * k + 2)))",
+        # (that items with other labels are rejected is not part of C10 and therefore not claimed here)
+        f"implies(head_is(snth({_E}, 2 * k + 1), 'operator:'), call_src({act}) == srest(items(snth({_E}, 2 * k + 1))))",
+        f"implies(not head_is(snth({_E}, 2 * k + 1), 'operator:'), joint_src({act}) == srest(items(snth({_E}, 2 * k + 1))))",
+    ]
+
+
+def _mk_comp_ok(joint):
+    cls = "MultiAgentComponent" if joint else "ObservedComponent"
+
+    def hook(interp, st, a):
+        env = {"c": _Val(a[0].t, ("ref", cls)), "k": a[1], "trajectory_file_path": a[2]}
+        return _Val(_z3.And(*[interp.truthy(interp.eval_spec(t, st, st.ghost.get("__old__"), env)) for t in _comp_ok_text(joint)]), "bool")
+    return hook
+
+
+def _traj_contract(joint):
+    comp_cls = "MultiAgentComponent" if joint else "ObservedComponent"
+    obs_cls = "MultiAgentObservation" if joint else "Observation"
+    C = "seq(result.components)"
+    LC = "seq(observation.components)"
+    hooks = dict(_C10_HOOKS, comp_ok=_mk_comp_ok(joint))
+
+    def chain(c, n):
+        # facts about the first n components of the component sequence c
+        return [
+            # comp_ok(c, k): see _comp_ok_text — a new object holding new state objects; its action / post-state are the ones parsed from items 2k+1 / 2k+2
+            f"forall_int(lambda k: comp_ok({c}[k], k, trajectory_file_path), 0, {n})",
+            # the first pre-state is the parsed initial state; every later pre-state is a separate copy of the preceding post-state
+            f"implies({n} > 0, state_src({c}[0].previous_state) == srest(items(sfirst({_E}))))",
+            # (that the copy is a separate object is what State.copy's contract says, C14; C10 only asks for equal content)
+            f"forall_int(lambda k: same_content({c}[k].previous_state, {c}[k - 1].next_state), 1, {n})",
+        ]
+    return dict(
+        prop="C10", shards=4,
+        params={"self": _TPR, "trajectory_file_path": ("ref", "Path"), "executing_agents": ("ref", "list_str"), "strict_trajectory_validation": "bool"},
+        optional=("executing_agents",), locals={"observation": ("ref", obs_cls), "previous_state": ("ref", "State"), "next_state": ("ref", "State")},
+        returns=("ref", obs_cls), opaque_funcs=("snth", "slen", "sfirst", "srest"),
+        axioms=[f"slen({_E}) >= 0"],      # a length (the only property of the hidden list functions the proof uses)
+        requires=["allocated(self)", "allocated(trajectory_file_path)", "is_list(file_sexp(trajectory_file_path))",
+                  # (in non-strict mode the first item is not inspected; the contract covers files whose first item is a parenthesised list)
+                  f"slen({_E}) > 0", f"is_list(sfirst({_E}))",
+                  "executing_agents is not None" if joint else "executing_agents is None"],
+        ensures=["fresh(result)", "fresh(result.components)",
+                 # one component per (action, state) pair
+                 f"len({C}) * 2 + 1 == slen({_E})"] + chain(C, f"len({C})"),
+        raises=dict(_ANY), modifies=[],
+        calls={"self._read_trajectory_file": _TP + "_read_trajectory_file", "PDDLTokenizer.parse": "lisp_parsers.pddl_tokenizer:PDDLTokenizer.parse@summary",
+               "self.parse_state": _TP + "parse_state", "self.parse_action_call": _TP + "parse_action_call",
+               "self.parse_joint_action": _TP + "parse_joint_action", "self.deduce_problem_objects": _TP + "deduce_problem_objects",
+               "State.copy": "models.pddl_state:State.copy"},
+        loops={0: dict(invariants=["fresh(observation)", "fresh(observation.components)", f"len({LC}) == _i",
+                                   f"2 * _i + 1 <= slen({_E})",
+                                   f"implies(_i == 0, state_src(previous_state) == srest(items(sfirst({_E}))) and fresh(previous_state))",
+                                   f"implies(_i > 0, same_content(previous_state, {LC}[_i - 1].next_state) and fresh(previous_state))",
+                                   ] + chain(LC, "_i"),
+                       modifies=[f"{comp_cls}.previous_state", f"{comp_cls}.next_state",
+                                 f"{comp_cls}.grounded_{'joint_action' if joint else 'action_call'}", f"list_{comp_cls}.items"]
+                       + (["JointActionCall.actions"] if joint else []))},
+        spec_hooks=hooks)
+
+
+def _h_state_wf(interp, st, a):
+    return _Val(_z3.And(*[interp.truthy(interp.eval_spec(c, st, st.ghost.get("__old__"), {"self": a[0]})) for c in _STATE_WF]), "bool")
+
+
+_C10_HOOKS["state_wf"] = _h_state_wf
+CONTRACTS[_TP + "_read_trajectory_file"] = dict(
+    prop="C10", assumed=True, params={"self": _TPR, "trajectory_file_path": ("ref", "Path")}, returns=("ref", "PDDLTokenizer"),
+    ensures=["fresh(result)", "tokenizer_source(result) == trajectory_file_path"], raises={}, modifies=[], spec_hooks=_C10_HOOKS)
+CONTRACTS["lisp_parsers.pddl_tokenizer:PDDLTokenizer.parse@summary"] = dict(
+    prop="C11", assumed=True, params={"self": ("ref", "PDDLTokenizer")}, returns="sexp", allocates=False,
+    ensures=["result == file_sexp(tokenizer_source(self))"], raises={"SyntaxError": "True", "IndexError": "True"}, modifies=[], spec_hooks=_C10_HOOKS)
+CONTRACTS[_TP + "parse_state"] = dict(
+    prop="C10", assumed=True, params={"self": _TPR, "state_data": "slist"}, returns=("ref", "State"),
+    ensures=["fresh(result)", "state_src(result) == state_data", "state_wf(result)"], raises=dict(_ANY), modifies=[], spec_hooks=_C10_HOOKS)
+CONTRACTS[_TP + "parse_action_call"] = dict(
+    prop="C10", assumed=True, params={"self": _TPR, "action_call_ast": "slist"}, returns=("ref", "ActionCall"),
+    ensures=["fresh(result)", "call_src(result) == action_call_ast"], raises=dict(_ANY), modifies=[], spec_hooks=_C10_HOOKS)
+CONTRACTS[_TP + "parse_joint_action"] = dict(
+    prop="C10", assumed=True, params={"self": _TPR, "joint_action_call_ast": "slist", "executing_agents": ("ref", "list_str")}, optional=("executing_agents",),
+    returns=("ref", "list_ActionCall"),
+    ensures=["fresh(result)", "joint_src(result) == joint_action_call_ast"], raises=dict(_ANY), modifies=[], spec_hooks=_C10_HOOKS)
+CONTRACTS[_TP + "deduce_problem_objects"] = dict(
+    prop="C10", assumed=True, params={"self": _TPR, "initial_state_expression": "slist"}, returns=("ref", "dict_PDDLObject"),
+    ensures=["fresh(result)"], raises=dict(_ANY), modifies=[], spec_hooks=_C10_HOOKS)
+# the contract proved under C14, restricted to the postconditions this caller uses (dropping postconditions of a callee is sound)
+CONTRACTS["models.pddl_state:State.copy"] = dict(_C14_CONTRACTS["models.pddl_state:State.copy"], prop="C14", spec_hooks=_C10_HOOKS,
+                                                 ensures=["fresh(result)", "result != self", "same_content(result, self)"])
+CONTRACTS[_TP + "parse_trajectory@single"] = _traj_contract(False)
+CONTRACTS[_TP + "parse_trajectory@joint"] = _traj_contract(True)
